@@ -914,6 +914,211 @@ pub fn gen_sampled(rng: &mut Rng) -> Option<(Case, Vec<Value>)> {
 }
 
 // ---------------------------------------------------------------------------------------------
+// Template attack (sampled mode, oblivious transfer): unmask two received payloads with two PRF values the
+// observer computed itself, compare with a share it holds, conditioned on one of its own bits
+// ---------------------------------------------------------------------------------------------
+
+#[derive(Default, Clone)]
+struct ViewVec {
+    recv: Vec<u128>,
+    prf: Vec<u128>,
+    share: Vec<u128>,
+    bits: Vec<u8>,
+}
+
+fn view_vec(case: &Case, gv: &GraphView, run: &crate::trisim::RunResult, o: usize, inputs: &[Vec<PV>], st: ciphercore_base::data_types::ScalarType) -> ViewVec {
+    let mut v = ViewVec::default();
+    let first = |pv: &PV, t: &Type| -> Option<u128> {
+        if !is_leaf_type(t) {
+            return None;
+        }
+        match pv {
+            PV::Leaf(val) => crate::vals::dec(val, t).first().cloned(),
+            _ => None,
+        }
+    };
+    for m in &run.msgs {
+        if m.to == o {
+            let t = &gv.nodes[m.node].ty;
+            if is_leaf_type(t) && t.get_scalar_type() == st {
+                if let Some(x) = first(&m.payload, t) {
+                    v.recv.push(x);
+                }
+            } else if is_leaf_type(t) && t.get_scalar_type() == BIT {
+                if let Some(x) = first(&m.payload, t) {
+                    v.bits.push(x as u8);
+                }
+            }
+        }
+    }
+    for (i, ni) in gv.nodes.iter().enumerate() {
+        if matches!(ni.op, Operation::PRF(_, _)) && is_leaf_type(&ni.ty) && ni.ty.get_scalar_type() == st {
+            if let Some(Some(pv)) = run.values[o].get(i).map(|x| x.as_ref()) {
+                if let Some(x) = first(pv, &ni.ty) {
+                    v.prf.push(x);
+                }
+            }
+        }
+    }
+    let its = case.prog.input_types();
+    for (k, ow) in case.owners.iter().enumerate() {
+        if *ow == Owner::Shared {
+            for s in [o, (o + 1) % 3] {
+                let c = inputs[k][o].child(s);
+                if let Some(x) = first(&c, &its[k]) {
+                    if its[k].get_scalar_type() == st {
+                        v.share.push(x);
+                    } else if its[k].get_scalar_type() == BIT {
+                        v.bits.push(x as u8);
+                    }
+                }
+            }
+        }
+    }
+    v
+}
+
+/// Returns a description of a distinguishing template, if one exists.
+fn template_attack(a: &[ViewVec], b: &[ViewVec], st: ciphercore_base::data_types::ScalarType, tests: &mut u64) -> Option<String> {
+    if a.is_empty() || b.is_empty() {
+        return None;
+    }
+    let mask = crate::vals::st_mask(st);
+    let (nr, np, ns, nb) = (a[0].recv.len().min(6), a[0].prf.len().min(14), a[0].share.len().min(4), a[0].bits.len().min(6));
+    if a.iter().chain(b.iter()).any(|v| v.recv.len() < nr || v.prf.len() < np || v.share.len() < ns || v.bits.len() < nb) {
+        return None;
+    }
+    let n = a.len().min(b.len());
+    for ra in 0..nr {
+        for rb in 0..nr {
+            if ra == rb {
+                continue;
+            }
+            for pi in 0..np {
+                for pj in 0..np {
+                    if pi == pj {
+                        continue;
+                    }
+                    for sk in 0..ns {
+                        for sign in 0..2 {
+                            // z = [ (recv_a - prf_i) - (recv_b - prf_j) == +-share_k ]
+                            let z = |v: &ViewVec| -> bool {
+                                let d = v.recv[ra].wrapping_sub(v.prf[pi]).wrapping_sub(v.recv[rb]).wrapping_add(v.prf[pj]) & mask;
+                                let s = if sign == 0 { v.share[sk] } else { v.share[sk].wrapping_neg() & mask };
+                                d == s && s != 0
+                            };
+                            // unconditioned and conditioned on each own bit
+                            let mut cnt = vec![[0u32; 2]; 2 * (1 + 2 * nb)]; // [world][cond] -> (hits, total)
+                            for (w, vs) in [a, b].iter().enumerate() {
+                                for v in vs.iter().take(n) {
+                                    let hit = z(v) as u32;
+                                    let base = w * (1 + 2 * nb);
+                                    cnt[base][0] += hit;
+                                    cnt[base][1] += 1;
+                                    for bi in 0..nb {
+                                        let c = base + 1 + 2 * bi + v.bits[bi] as usize;
+                                        cnt[c][0] += hit;
+                                        cnt[c][1] += 1;
+                                    }
+                                }
+                            }
+                            for c in 0..(1 + 2 * nb) {
+                                let (ha, ta) = (cnt[c][0] as f64, cnt[c][1] as f64);
+                                let (hb, tb) = (cnt[(1 + 2 * nb) + c][0] as f64, cnt[(1 + 2 * nb) + c][1] as f64);
+                                if ta < 200.0 || tb < 200.0 {
+                                    continue;
+                                }
+                                *tests += 1;
+                                // Hoeffding: each frequency is within sqrt(45 / (2 t)) of its mean except with probability 2 e^-45
+                                let eps = (45.0 / (2.0 * ta)).sqrt() + (45.0 / (2.0 * tb)).sqrt();
+                                if (ha / ta - hb / tb).abs() > eps {
+                                    return Some(format!(
+                                        "(payload#{} - own PRF#{}) - (payload#{} - own PRF#{}) == {}held share#{}{} holds with frequency {:.3} in one world and {:.3} in the other",
+                                        ra,
+                                        pi,
+                                        rb,
+                                        pj,
+                                        if sign == 0 { "" } else { "-" },
+                                        sk,
+                                        if c == 0 { String::new() } else { format!(" given own bit#{} = {}", (c - 1) / 2, (c - 1) % 2) },
+                                        ha / ta,
+                                        hb / tb
+                                    ));
+                                }
+                            }
+                        }
+                    }
+                }
+            }
+        }
+    }
+    None
+}
+
+/// Oblivious-transfer workload: MixedMultiply of a shared integer by a shared bit; the two worlds differ in the bit only.
+pub fn ot_template_check(rng: &mut Rng, n: usize) -> SampledResult {
+    use ciphercore_base::data_types::UINT8;
+    let mut res = SampledResult { violation: None, runs: 0, tests: 0, skipped: None };
+    let st = UINT8;
+    let prog = Prog {
+        graphs: vec![GraphD {
+            steps: vec![
+                Step { op: Operation::Input(scalar_type(st)), deps: vec![], gdeps: vec![] },
+                Step { op: Operation::Input(scalar_type(BIT)), deps: vec![], gdeps: vec![] },
+                Step { op: Operation::MixedMultiply, deps: vec![0, 1], gdeps: vec![] },
+            ],
+            output: 2,
+            ..Default::default()
+        }],
+    };
+    let x = 1 + rng.below(200) as u128;
+    let case = Case { prog, owners: vec![Owner::Shared, Owner::Shared], outputs: vec![], inline: Inline::Simple, inputs: vec![enc(&[x], st), enc(&[0], BIT)] };
+    let c = match compile_case(&case) {
+        CompileOutcome::Ok(c) => c,
+        _ => {
+            res.skipped = Some("not compiled".into());
+            return res;
+        }
+    };
+    let mut cfg = RunCfg::independent([0, 0, 0]);
+    cfg.keep_values = true;
+    let junk = JunkPlan::uniform(JunkKind::Zeros, 0);
+    let mut views: Vec<Vec<Vec<ViewVec>>> = vec![vec![vec![]; 2]; 3];
+    for w in 0..2 {
+        let mut cw = case.clone();
+        cw.inputs[1] = enc(&[w as u128], BIT);
+        for _ in 0..n {
+            let mut cfgr = cfg.clone();
+            cfgr.tapes = [rng.next_u64(), rng.next_u64(), rng.next_u64()];
+            let inputs = match crate::exec::party_inputs(&cw, &c, &junk, rng.next_u64()) {
+                Ok(i) => i,
+                Err(e) => {
+                    res.skipped = Some(e);
+                    return res;
+                }
+            };
+            let mut ch = Chooser::replay(vec![]);
+            let r = Sim::new(&c.gv, cfgr).run(&inputs, &mut ch);
+            res.runs += 1;
+            if r.status != Status::Completed {
+                res.skipped = Some("run did not complete".into());
+                return res;
+            }
+            for o in 0..3 {
+                views[o][w].push(view_vec(&cw, &c.gv, &r, o, &inputs, st));
+            }
+        }
+    }
+    for o in 0..3 {
+        if let Some(d) = template_attack(&views[o][0], &views[o][1], st, &mut res.tests) {
+            res.violation = Some((o, format!("observer {} can tell two values of another party's private bit apart (oblivious transfer): {} ({} tapes per world)", o, d, n)));
+            return res;
+        }
+    }
+    res
+}
+
+// ---------------------------------------------------------------------------------------------
 // Driver
 // ---------------------------------------------------------------------------------------------
 
@@ -934,9 +1139,10 @@ pub fn run_c03(args: &Args) -> i32 {
     let t0 = std::time::Instant::now();
     let (n_exact, n_sampled, max_bits, max_runs, samples) = match args.tier {
         Tier::Quick => (args.cases.unwrap_or(48), 12, 13usize, 1u64 << 17, 4000usize),
-        Tier::Thorough => (args.cases.unwrap_or(1200), 120, 16usize, 1u64 << 21, 40000usize),
+        Tier::Thorough => (args.cases.unwrap_or(400), 60, 15usize, 1u64 << 19, 20000usize),
     };
-    let n = n_exact + n_sampled;
+    let n_ot = 1usize;
+    let n = n_exact + n_sampled + n_ot;
     let results = run_cases(
         n,
         args.threads,
@@ -971,6 +1177,33 @@ pub fn run_c03(args: &Args) -> i32 {
                     skipped: r.skipped.clone(),
                     sample: Some(serde_json::json!({"mode": "exact", "program": case.prog.summary(), "owners": format!("{:?}", case.owners), "output_parties": case.outputs, "input_assignments": r.worlds, "live_tape_bits_per_observer": r.live_bits, "classes": r.classes, "runs": r.runs, "skipped": r.skipped})),
                     key,
+                }
+            } else if i >= n_exact + n_sampled {
+                let r = ot_template_check(&mut rng, samples);
+                C03Out {
+                    violation: r.violation.map(|(o, detail)| C03Replay {
+                        property: "C03".into(),
+                        engine: "trisim+views".into(),
+                        mode: "ot-template".into(),
+                        seed: args.seed,
+                        case_index: i as u64,
+                        program_summary: "MixedMultiply(shared u8, shared bit), output kept shared".into(),
+                        case: Case { prog: Prog::default(), owners: vec![], outputs: vec![], inline: Inline::Simple, inputs: vec![] },
+                        observer: o,
+                        world_a: vec![],
+                        world_b: vec![],
+                        violation: Violation { class: "view-depends-on-other-inputs".into(), detail },
+                        samples,
+                    }),
+                    runs: r.runs,
+                    mode: "sampled",
+                    live_bits: vec![],
+                    classes: 0,
+                    worlds: 2,
+                    tests: r.tests,
+                    skipped: r.skipped.clone(),
+                    sample: Some(serde_json::json!({"mode": "ot-template", "program": "MixedMultiply(shared u8, shared bit)", "tapes_per_world": samples, "template_tests": r.tests, "runs": r.runs})),
+                    key: 0x07,
                 }
             } else {
                 match gen_sampled(&mut rng) {
@@ -1122,7 +1355,10 @@ pub fn replay_cmd(path: &str) -> i32 {
             return 2;
         }
     };
-    let v = if rp.mode == "exact" {
+    let v = if rp.mode == "ot-template" {
+        let mut rng = Rng::derive(rp.seed, "C03", rp.case_index);
+        ot_template_check(&mut rng, rp.samples.max(1000)).violation.map(|(_, d)| d)
+    } else if rp.mode == "exact" {
         exact_check(&rp.case, 20, 1 << 24).violation.map(|(_, _, _, d)| d)
     } else {
         sampled_check(&rp.case, &rp.world_b, rp.samples.max(1000), rp.seed).violation.map(|(_, d)| d)
